@@ -1,0 +1,12 @@
+//go:build verif
+
+package transaction
+
+import "github.com/LemoFoundationLtd/lemochain-core/chain/vm"
+
+// VerifSetTracer makes every EVM this processor creates from now on report its steps to `t` (nil switches tracing off).
+// A tracer only observes: vm.Config.Debug guards nothing but the Tracer calls in evm.go and interpreter.go.
+func (p *TxProcessor) VerifSetTracer(t vm.Tracer) {
+	p.cfg.Debug = t != nil
+	p.cfg.Tracer = t
+}
